@@ -49,11 +49,13 @@ def eligible (m : Mol) : List Nat → Bool
       else false)
   | _ => false
 
+/-- the six pairs of cyclically consecutive atoms of a six-ring, as the code names them -/
+def edgePairs : List Nat → List (Nat × Nat)
+  | [a0, a1, a2, a3, a4, a5] => [(a0, a1), (a1, a2), (a2, a3), (a3, a4), (a4, a5), (a5, a0)]
+  | _ => []
+
 /-- the bond joins two cyclically consecutive atoms of the six-ring -/
-def ringEdge : List Nat → Bond → Bool
-  | [a0, a1, a2, a3, a4, a5], e =>
-    e.joins a0 a1 || e.joins a1 a2 || e.joins a2 a3 || e.joins a3 a4 || e.joins a4 a5 || e.joins a5 a0
-  | _, _ => false
+def ringEdge (r : List Nat) (e : Bond) : Bool := (edgePairs r).any fun p => e.joins p.1 p.2
 
 /-- `SetIsAromatic(True)` on the ring atoms, `SetBondType(AROMATIC)` on the ring bonds -/
 def setAromatic (m : Mol) (r : List Nat) : Mol :=
